@@ -12,8 +12,8 @@ nthm = sum(len(v) for v in thm.values())
 nfiles = len(glob.glob('/verif/coq/theories/*/*.v'))
 nfix = int(subprocess.check_output("git -C /repo log --oneline | grep -c ' fix:'", shell=True).decode())
 models = {
- "C01": ("M_Slicing.v (+ Base/PyIndex.v, Base/Shape.v)", "cubes over sliced / resampled exact linear FITS WCS (lin_wcs) and probe WCS, all basic index items incl. negative / out-of-range / Ellipsis / None, Python and numpy integers, numpy + dask payloads, chains of slices; gWCS family not generated; `array_shape None` read as 'no shape known'"),
- "C02": ("M_ExtraCoords.v", "lookup tables (Quantity 1-3 tables, Time, SkyCoord mesh / not) on any axes + a WCS-backed ExtraCoords stratum with identity mapping; WCS-backed extra coords with general mapping are not generated"),
+ "C01": ("M_Slicing.v (+ Base/PyIndex.v, Base/Shape.v)", "cubes over sliced / resampled exact linear FITS WCS (lin_wcs) and probe WCS, all basic index items incl. negative / out-of-range / Ellipsis / None, Python and numpy integers, numpy + dask payloads, chains of slices; lookup-table gWCS and already-wrapped (resampled, high-level) WCS families by the direct oracle; `array_shape None` read as 'no shape known'"),
+ "C02": ("M_ExtraCoords.v", "lookup tables (Quantity 1-3 tables, Time, SkyCoord mesh / not) on any axes, on a 1-D FITS grid, sky meshes; WCS-backed ExtraCoords with permuted / partial mappings, integer items and chains (direct oracle)"),
  "C03": ("M_GlobalCoords.v", "histories of integer slices with branching, user-added global coords, 3-table Quantity coordinates; rot family restricted to 2-D; two generic gWCS frames whose dropped object keys clash (a gwcs limitation) are not generated"),
  "C04": ("M_Crop.v (reuses C14's wrapper evaluator)", "probe WCS with exact edges, TAN / rotated / tan_split families, lookup-table extra coords on 1-3-D cubes, None per independent group and all-None, float values in two unit spellings, Quantities, high-level objects, malformed requests"),
  "C05": ("M_WorldCoords.v", "every correlation structure up to 3x3 (+ sampled 4x4), wcs / extra_coords / combined_wcs, corners, grouped objects, ask / scribble / add / ask; gWCS primary WCS not generated"),
@@ -27,7 +27,7 @@ models = {
  "C13": ("M_Collection.v (proofs in P_Collection.v, P_CollectionInv.v)", "edit histories (slice, keys, pop, update, del, refused operations) on collections with 0-4 aligned axes in any per-member order; every collection an edit came from is re-observed; numpy integers; sequence members not generated"),
  "C14": ("M_Wrappers.v", "wrapper expressions of depth <= 3 over probe / lin WCS with exact rational evaluation (wexpr evaluator); scalar and integer-typed factor / offset arguments; compound members that are themselves compounds"),
  "C15": ("M_Unwrap.v", "chains of slices and resamplings over FITS WCS with PC or CD matrices; raw negative items excluded (C01 normalises them before they reach the WCS)"),
- "C16": ("M_RebinUnc.v", "StdDev / Variance / InverseVariance, sum / mean / prod / nan-variants, masks, ignores-mask; NaN data together with operation_ignores_mask is unspecified and not judged"),
+ "C16": ("M_RebinUnc.v", "StdDev / Variance / InverseVariance, sum / mean / prod / nan-variants, masks, ignores-mask; NaN data together with operation_ignores_mask: either consistent reading is accepted (NaN members out of sum and divisor, or in both), a mixture is not"),
  "C17": ("M_SeqCoords.v (+ M_WorldCoords.v, M_IndexAsCube.v)", "see MANIFEST; cubes of one sequence share one coordinate structure"),
  "C18": ("M_SeqCrop.v (+ M_Crop.v)", "see MANIFEST; extra-coords wcses by the direct oracle only"),
  "C19": ("M_Lookup.v (+ M_Resample.v)", "see MANIFEST; names / types / units and 2-D SkyCoord tables by the direct oracle only"),
